@@ -39,10 +39,16 @@ S_EXT = ["lha_arch_exists / lha_arch_mkdir: arbitrary result per call", "lha_rea
          "getchar: arbitrary characters, lines <= 2 characters, 'n' forced in the third line", "tolower: ASCII model"]
 
 HARNESSES = [
-    dict(name="safe.output", src="C18/safe.c", defines=["N=6", "VAS_MAY_FAIL"], unwindset=U({"safe_output.0": 12, "harness.0": 7, "harness.1": 7}), units=["src/safe.c"], timeout=120,
+    dict(name="safe.output", src="C18/safe.c", defines=["N=6", "VAS_MAY_FAIL"], flags=["--max-field-sensitivity-array-size", "320"], unwindset=U({"safe_output.0": 12, "harness.0": 7, "harness.1": 7}), units=["src/safe.c"], timeout=120,
          bounds="ALL strings of 0..6 bytes over 0x01..0xFF; safe_output, safe_printf(\"%s\"), safe_fprintf(stderr, \"%s\"), safe_printf(\" -> %s\")",
          stubs=[S_OUT + " and recorded", S_VAS],
          claim="length preserved; printable bytes unchanged; every byte < 0x20 or >= 0x7F written as '?'; return value = formatted length; buffer released"),
+    dict(name="safe.output.long", src="C18/safe.c", defines=["N=4", "FILL=253", "VAS_MAX=272", "OUT_MAXSTR=264", "WHICH_FIX=1"], optional_witnesses=True, flags=["--max-field-sensitivity-array-size", "320"],
+         unwindset=U({"safe_output.0": 264, "harness.0": 256, "harness.1": 7, "harness.2": 256, "harness.3": 7, "out_strlen.0": 266, "out_str.0": 266, "out_str.1": 266, "lha_arch_vasprintf.0": 274, "verif_vsnprintf.0": 274, "verif_vsnprintf.1": 274}),
+         units=["src/safe.c"], timeout=240, mem_gb=6,
+         bounds="safe_printf(\"%s\") on strings of 253 concrete filler bytes followed by ALL strings of 0..4 bytes over 0x01..0xFF (formatted output of 253..257 bytes: crosses 256)",
+         stubs=[S_OUT + " and recorded", S_VAS.replace("64-byte", "272-byte")],
+         claim="as safe.output, for output longer than 256 bytes (a length threshold that a fixed-size formatting buffer would introduce)"),
     dict(name="list.cols", src="C18/cols.c", defines=["WHICH=1", "SL=3"], unwindset=U(LISTL), units=LIST_UNITS, timeout=120,
          bounds="one header: strings <= 3 arbitrary bytes, 5 arbitrary method bytes, all flags/perms/ids/sizes/stamp/level/OS type arbitrary; arbitrary totals",
          stubs=[S_OUT, S_VAS, S_TIME],
